@@ -320,8 +320,9 @@ func (r *FnRun) execSimple(fr *Frame, st *State, in ssa.Instruction) {
 				fr.vals[x] = r.allocObject(st, elem, sanitize(typeKey(elem)))
 				return
 			}
+			// becomes "escaped" (havocked by calls) only once a closure or
+			// goroutine has actually captured it
 			c := r.newCell(st, elem, x.Comment)
-			c.escaped = true
 			fr.vals[x] = PtrVal{Kind: pkCell, Cell: c, Elem: elem}
 			return
 		}
